@@ -79,6 +79,9 @@ func c07Lex(text string) []c07Tok {
 
 // c07Layout writes the tokens in a layout and returns the text and, for every original offset of
 // a token start, its line and 1-based column in the new text.
+// a number literal standing as a value: after a colon, an opening bracket or a separator
+var c07NumRe = regexp.MustCompile(`[:\[, \n\t]-?[0-9]+[ ,\n\r\t)\]}]`)
+
 func c07Layout(toks []c07Tok, style int, r *rand.Rand) (string, map[int][2]int) {
 	var b strings.Builder
 	pos := map[int][2]int{}
@@ -239,14 +242,34 @@ func c07Exec(input sx.S) (obs sx.S) {
 	if s := section(secs, "garble"); len(s) > 0 {
 		garble = sx.Int(s[0])
 	}
+	if garble > 0 && garble%4 == 0 {
+		// structural damage instead of damaged bytes: the whole document twice (every operation and
+		// fragment defined again: the refusal is located at a token of the second copy)
+		n := len(toks)
+		last := 0
+		if n > 0 {
+			last = toks[n-1].off + len(toks[n-1].text) + 1
+		}
+		for i := 0; i < n; i++ {
+			toks = append(toks, c07Tok{text: toks[i].text, off: last + toks[i].off})
+		}
+	}
 	out := []sx.S{"layouts"}
 	for _, st := range section(secs, "layouts") {
 		style := sx.Int(st)
 		r := rand.New(rand.NewSource(lseed*31 + int64(style)))
 		text, pos := c07Layout(toks, style, r)
-		if garble > 0 { // a malformed request: bytes removed, doubled or replaced
+		if garble > 0 && garble%4 != 0 { // a malformed request: bytes removed, doubled or replaced
 			g := rand.New(rand.NewSource(int64(garble)))
-			text = mutateBytes(g, text)
+			if locs := c07NumRe.FindAllStringIndex(text, -1); garble%4 == 1 && len(locs) > 0 {
+				// a number that is made of number characters only and is no number, where a value stands
+				// (followed by whatever the layout puts there: a space, a comma, a line break)
+				l := locs[g.Intn(len(locs))]
+				bad := []string{"1.2.3", "1e", "-", "1-2", "--1", "1e+", "0.0.", "1.e5e"}[g.Intn(8)]
+				text = text[:l[0]+1] + bad + text[l[1]-1:]
+			} else {
+				text = mutateBytes(g, text)
+			}
 		}
 		posToID := map[[2]int]int{}
 		frLen := c07SpreadLens(section(secs, "doc")) // a fragment spread is positioned just behind its name
